@@ -64,8 +64,22 @@ class Ctx:
 
     # ---- running the two sides ---------------------------------------------------------------
     def run_go(self, lines, timeout_ms=4000, parallel=True):
-        return run_lines([B + '/znharness'], lines, env=dict(os.environ, ZNH_TIMEOUT_MS=str(timeout_ms)),
-                         parallel=parallel, restart=True)
+        out = run_lines([B + '/znharness'], lines, env=dict(os.environ, ZNH_TIMEOUT_MS=str(timeout_ms)),
+                        parallel=parallel, restart=True)
+        if parallel and len(lines) > 1:
+            # the watchdog measures wall-clock time: on a loaded machine a batch of 16 parallel processes answers `timeout` (or dies)
+            # on lines that take milliseconds alone. Such answers are asked again, alone, with three times the watchdog; what
+            # times out again stands, and after five of those in a row the rest keep their first answer (the code hangs)
+            again = 0
+            for i, a in enumerate(out):
+                if a.startswith('timeout') or a.startswith('crash'):
+                    if again >= 5:
+                        break
+                    out[i] = run_lines([B + '/znharness'], [lines[i]], env=dict(os.environ, ZNH_TIMEOUT_MS=str(3 * timeout_ms)),
+                                       parallel=False, restart=True)[0]
+                    self.count('go_answers_asked_again_alone')
+                    again = again + 1 if (out[i].startswith('timeout') or out[i].startswith('crash')) else 0
+        return out
 
     def run_lean(self, lines, parallel=True):
         return run_lines([LEAN + '/.lake/build/bin/zndriver'], lines, parallel=parallel, restart=True)
